@@ -46,7 +46,7 @@ CHECKS = {
          "All short sequences of declare / redeclare / assign / read / destructure / fn / block events over a few names; `_` in every target position; redeclaration must cite the earlier position.", "4/C20"),
 }
 
-DONE = ["C01","C03","C06","C08","C09","C10","C11","C16","C17","C18"]
+DONE = ["C01","C02","C03","C04","C05","C06","C07","C08","C09","C10","C11","C12","C13","C14","C15","C16","C17","C18","C19","C20"]
 
 checks = []
 na = []
